@@ -31,7 +31,7 @@ SAVE_FILES = ["zz_verif_env.go", "zz_verif_merge.go", "zz_verif_c07uniq.go", "zz
 
 
 def save_jobs(tier):
-    return [{"id": f"O3.save.branchable{b}", "func": "VerifH_S1_Save", "conf": {"branchable": b, "faults": 0, "dag": "", "orders": "all", "shortid": 0},
+    return [{"id": f"O3.save.branchable{b}", "func": "VerifH_S1_Save", "conf": {"branchable": b, "faults": 0, "dag": "", "orders": "all", "shortid": 0, "for": "C20"},
              "map_order": True, "_obligation": "O3", "_covers": ["saved"], "unwind": 80} for b in (0, 1)]
 
 
